@@ -45,6 +45,14 @@ def run_check(prop, tier, seed):
     try:
         # 1. regenerate tables
         gen_ok, gen_info = regen(ctx.notes)
+        if gen_ok and gen_info.get('failed'):
+            # some groups of tables could not be tabulated from the working tree: that breaks the tie of exactly the
+            # properties whose Lean modules use those tables (the others keep building on the last good values)
+            hit = C.uses_generated(list(mod.LEAN_MODULES), gen_info.get('failed_lean_names', []))
+            ctx.notes.append(f'gen_tables: groups failed {gen_info["failed"]}; used by this property: {hit}')
+            if hit:
+                gen_ok = False
+                gen_info = {'failed': gen_info['failed'], 'used_here': hit}
         obligations.append(('tie:gen_tables', gen_ok, '' if gen_ok else str(gen_info)[:500]))
         # 2. build
         targets = list(mod.LEAN_MODULES) + ['femio_driver']
@@ -98,12 +106,23 @@ def run_check(prop, tier, seed):
             tb = traceback.extract_tb(e.__traceback__)
             inside = [f for f in tb if str(C.REPO) in f.filename]
             if not inside:
-                raise
-            f = inside[-1]
-            ctx.fail(f'raises:{f.name}', f'femio raised {type(e).__name__}: {e} in {f.filename.replace(str(C.REPO) + "/", "")}:{f.lineno} '
-                     f'({f.name}) on a generated input of the {prop} check', {'traceback': traceback.format_exc()[-3000:],
-                                                                              'seed': seed, 'tier': tier}, None)
-            ctx.notes.append('run aborted by an exception inside femio; cases after it were not evaluated')
+                # the harness itself tripped over what the implementation returned.  If there is independent evidence
+                # that the tree changed behaviour (a broken obligation, a disagreement, an oracle failure) this is part
+                # of that breakage and is reported as a broken correspondence; otherwise it is a harness bug (exit 2)
+                if not (ctx.disagreements or ctx.failures or any(not o[1] for o in obligations)):
+                    raise
+                obligations.append(('tie:harness-could-not-interpret-the-implementation-output', False,
+                                    traceback.format_exc()[-1500:]))
+                ctx.notes.append('run aborted: the harness could not interpret the output of the implementation')
+                inside = None
+            if inside is None:
+                pass
+            else:
+                f = inside[-1]
+                ctx.fail(f'raises:{f.name}', f'femio raised {type(e).__name__}: {e} in {f.filename.replace(str(C.REPO) + "/", "")}:{f.lineno} '
+                         f'({f.name}) on a generated input of the {prop} check', {'traceback': traceback.format_exc()[-3000:],
+                                                                                  'seed': seed, 'tier': tier}, None)
+                ctx.notes.append('run aborted by an exception inside femio; cases after it were not evaluated')
         obligations.append(('tie:correspondence', not ctx.disagreements and ctx.driver is not None,
                             f'{len(ctx.disagreements)} disagreements' if ctx.driver is not None else 'model driver not available'))
     except C.Timeout:
